@@ -473,6 +473,36 @@ func checkOrigin(c originCase) error {
 	if back := dnsutil.TrimDomainName(abs, sorg); back != srel {
 		return pbt.Errf("TrimDomainName(AddOrigin(%q,%q)=%q,%q)=%q want %q", srel, sorg, abs, sorg, back, srel)
 	}
+	// the origin spelled in the other letter case is the same origin
+	swap := func(t string) string {
+		b := []byte(t)
+		for i := 0; i < len(b); i++ {
+			if b[i] == '\\' {
+				i++ // an escaped character keeps its spelling (\097 is digits, not a letter)
+				if i+2 < len(b) && b[i] >= '0' && b[i] <= '9' {
+					i += 2
+				}
+				continue
+			}
+			if b[i] >= 'a' && b[i] <= 'z' || b[i] >= 'A' && b[i] <= 'Z' {
+				b[i] ^= 0x20
+			}
+		}
+		return string(b)
+	}
+	if other := swap(sorg); other != sorg {
+		if back := dnsutil.TrimDomainName(abs, other); back != srel {
+			return pbt.Errf("TrimDomainName(%q,%q)=%q want %q (the origin in another letter case)", abs, other, back, srel)
+		}
+		if back := dnsutil.TrimDomainName(swap(abs), sorg); back != swap(srel) {
+			return pbt.Errf("TrimDomainName(%q,%q)=%q want %q (the name in another letter case)", swap(abs), sorg, back, swap(srel))
+		}
+		if len(org) > 0 {
+			if tr := dnsutil.TrimDomainName(render(org, true), other); tr != "@" {
+				return pbt.Errf("TrimDomainName(%q,%q)=%q want @", render(org, true), other, tr)
+			}
+		}
+	}
 	// the other direction: abs (fully qualified) under origin
 	full := render(append(rel.Clone(), org...), true)
 	tr := dnsutil.TrimDomainName(full, sorg)
